@@ -148,7 +148,11 @@ impl PPipe {
 }
 
 fn random_step(r: &mut Rng, modelled_only: bool) -> PStep {
-    let modelled: [(&str, Vec<(&str, &str)>); 7] = [
+    let modelled: [(&str, Vec<(&str, &str)>); 10] = [
+        // explicit signs and exponent signs are part of a value, not a prefix
+        ("helmert", vec![("x", "1e+1"), ("y", "-5e+0"), ("z", "+3")]),
+        ("helmert", vec![("x", "+2.5E+1"), ("rx", "5e-1"), ("convention", "position_vector")]),
+        ("helmert", vec![("translation", "1e+1,+2,-3e+0")]),
         ("helmert", vec![("x", "10"), ("y", "-5")]),
         ("helmert", vec![("x", "1"), ("rx", "0.5"), ("convention", "position_vector")]),
         ("axisswap", vec![("order", "2,1")]),
@@ -157,7 +161,9 @@ fn random_step(r: &mut Rng, modelled_only: bool) -> PStep {
         ("addone", vec![]),
         ("unitconvert", vec![("z_in", "ft")]),
     ];
-    let others: [(&str, Vec<(&str, &str)>); 8] = [
+    let others: [(&str, Vec<(&str, &str)>); 10] = [
+        ("tmerc", vec![("lon_0", "+9"), ("k", "9.996e-1"), ("x_0", "5e+5")]),
+        ("tmerc", vec![("lon_0", "9"), ("x_0", "5.0E+05"), ("y_0", "-1e+6")]),
         ("cart", vec![]),
         ("cart", vec![("ellps", "intl")]),
         ("cart", vec![("a", "6378388"), ("rf", "297")]),
